@@ -285,15 +285,43 @@ def issue (s : MState) (at_ : Nat) (att : Attempt) (res : Res) : Option MState :
     | .ok => if r.1 == .ok then some { s with log := r.2 } else none
   else none
 
-/-- calls recorded during `PeerRemove(p)`: re-pins (only of entries allocated to `p`, only when enabled, no longer
-    naming `p`) and then exactly one `RmPeer(p)` -/
-def vacateOk (repin : Bool) (pins : PinMap) (p : Nat) : List Call → Bool
+/-- holders of `pin` that remain once `p` is blacklisted: allocated peers that are still servers (only those have metrics) -/
+def holdersLeft (c : Config) (p : Nat) (pin : Pin) : Nat :=
+  (pin.allocs.filter (fun a => a != p && cfgHas c a)).length
+
+/-- `allocate` with `p` blacklisted keeps the current allocations (those still name `p`) iff the remaining
+    holders already satisfy the factors: `needed <= 0` and not `wanted < 0` -/
+def keepsAllocs (c : Config) (p : Nat) (pin : Pin) : Bool :=
+  decide (pin.opts.rmin ≤ (holdersLeft c p pin : Int)) && decide ((holdersLeft c p pin : Int) ≤ pin.opts.rmax)
+
+/-- `pin()` with `p` blacklisted succeeds: enough holders left, or enough other servers to reach the minimum -/
+def repinSucceeds (c : Config) (p : Nat) (pin : Pin) : Bool :=
+  decide (pin.opts.rmin ≤ (holdersLeft c p pin : Int)) ||
+  decide (pin.opts.rmin ≤ ((erasePeer p (cfgIds c)).length : Int))
+
+/-- the entries `vacatePeer` re-pins: those allocated to `p` whose re-allocation succeeds -/
+def repinCids (repin : Bool) (c : Config) (pins : PinMap) (p : Nat) : List Nat :=
+  if repin then (pins.filter (fun q => q.allocs.contains p && repinSucceeds c p q)).map (·.cid) else []
+
+def callCids : List Call → List Nat
+  | [] => []
+  | .logPin q :: rest => q.cid :: callCids rest
+  | .rmPeer _ :: rest => callCids rest
+
+/-- shape of the calls recorded during `PeerRemove(p)`: re-pins of entries allocated to `p` (naming `p` again exactly
+    when the allocation was kept), then exactly one `RmPeer(p)` -/
+def vacateShape (c : Config) (pins : PinMap) (p : Nat) : List Call → Bool
   | [.rmPeer q] => q == p
   | .logPin q :: rest =>
-    repin && (match pins.get q.cid with
-              | some old => old.allocs.contains p && !q.allocs.contains p
-              | none => false) && vacateOk repin pins p rest
+    (match pins.get q.cid with
+     | some old => old.allocs.contains p && (q.allocs.contains p == keepsAllocs c p old)
+     | none => false) && vacateShape c pins p rest
   | _ => false
+
+def vacateOk (repin : Bool) (c : Config) (pins : PinMap) (p : Nat) (calls : List Call) : Bool :=
+  vacateShape c pins p calls &&
+  (repinCids repin c pins p).all (callCids calls).contains &&
+  (callCids calls).all (repinCids repin c pins p).contains
 
 def callEntries : List Call → List Entry
   | [] => []
@@ -302,10 +330,15 @@ def callEntries : List Call → List Entry
 
 /-- one step of the script: `none` = the recorded outcome is not one the model allows -/
 def step (s : MState) : Op → Option MState
-  | .start j => if s.running.contains j then none else some { s with running := insertPeer j s.running }
-  | .add at_ j res => issue s at_ (rwAddPeer j) res
+  | .start j =>
+    if s.running.contains j then none
+    else some { s with running := insertPeer j s.running, wiped := erasePeer j s.wiped }   -- a fresh staging instance
+  | .add at_ j res => if s.wiped.contains j then none else issue s at_ (rwAddPeer j) res
   | .rm at_ j res => issue s at_ (rwRemovePeer j) res
-  | .pin at_ p res => issue s at_ (rwCommit (.pin p)) res
+  | .pin at_ p res =>
+    if s.tier == .cluster && res == .err then
+      (if s.running.contains at_ then some s else none)   -- Cluster.Pin refused (allocation): nothing is logged
+    else issue s at_ (rwCommit (.pin p)) res
   | .unpin at_ c res =>
     if s.tier == .cluster && (s.pins.get c).isNone then
       (if res == .err && s.running.contains at_ then some s else none)   -- Cluster.Unpin refuses an absent cid
@@ -313,23 +346,27 @@ def step (s : MState) : Op → Option MState
   | .ready j l v sy pins =>
     if s.running.contains j && cfgVoter s.cfg j && l && v && sy && canonMap pins == canonMap s.pins then some s else none
   | .nonvoter at_ j res =>
-    if s.member at_ && res == .ok then some { s with log := s.log ++ [.addNonvoter j] } else none
+    if s.member at_ && res == .ok && !s.wiped.contains j then some { s with log := s.log ++ [.addNonvoter j] } else none
   | .sync j res =>
     if s.running.contains j && res == (if cfgVoter s.cfg j then SyncRes.ok else SyncRes.err) then some s else none
   | .stop j => some { s with running := erasePeer j s.running }
   | .restart j =>
     if s.wiped.contains j then
       -- the data folder is gone: the peer bootstraps a fresh one-peer cluster (only meaningful when it was the only peer)
-      (if s.ids == [j] then some { s with log := [.boot [j]], running := insertPeer j s.running, wiped := erasePeer j s.wiped } else none)
-    else some { s with running := insertPeer j s.running }
+      (if s.ids == [j] then
+         some { s with log := [.boot [j]], running := insertPeer j s.running, wiped := erasePeer j s.wiped, departed := erasePeer j s.departed }
+       else none)
+    else some { s with running := insertPeer j s.running, departed := erasePeer j s.departed }
   | .clean j gone => if gone then some { s with running := erasePeer j s.running } else none
   | .join j via res pins =>
     if s.member via && !s.running.contains j && !cfgHas s.cfg j && res == .ok then
       let log' := s.log ++ [.addVoter j]
-      if canonMap pins == canonMap (pinsAt log') then some { s with log := log', running := insertPeer j s.running } else none
+      if canonMap pins == canonMap (pinsAt log') then
+        some { s with log := log', running := insertPeer j s.running, departed := erasePeer j s.departed, wiped := erasePeer j s.wiped }
+      else none
     else none
   | .peerRm at_ p res calls =>
-    if s.member at_ && vacateOk s.repin s.pins p calls then
+    if s.member at_ && vacateOk s.repin s.cfg s.pins p calls then
       let log1 := s.log ++ callEntries calls
       let r := direct (rwRemovePeer p) log1
       if r.1 == res then
